@@ -64,8 +64,9 @@ impl SplitPacket {
                     true => 1248,
                 };
 
+                // The decompressed size and the checksum are only present in the first packet
                 let is_compressed = ((id >> 31) & 1u32) == 1u32;
-                let decompressed = match is_compressed {
+                let decompressed = match is_compressed && number == 0 {
                     false => None,
                     true => Some((buffer.read()?, buffer.read()?)),
                 };
